@@ -150,7 +150,10 @@ impl<T: Debug + PartialEq, F: RealNumber, D: Distance<T, F>> CoverTree<T, F, D> 
                     } else {
                         *heap.peek()
                     };
-                    if d <= (upper_bound + child.max_dist) {
+                    // the triangle inequality can be an exact equality (collinear points); computed distances then
+                    // violate it by a few ulps, so the pruning bound gets a relative slack (the final tests stay exact)
+                    let bound = upper_bound + child.max_dist;
+                    if d <= bound + bound * F::epsilon().sqrt() {
                         if c > 0
                             && d < upper_bound
                             && (!self.identical_excluded || self.get_data_value(child.idx) != p)
@@ -218,7 +221,9 @@ impl<T: Debug + PartialEq, F: RealNumber, D: Distance<T, F>> CoverTree<T, F, D> 
                         d = self.distance.distance(self.get_data_value(child.idx), p);
                     }
 
-                    if d <= radius + child.max_dist {
+                    // relative slack on the pruning bound only, see `find`
+                    let bound = radius + child.max_dist;
+                    if d <= bound + bound * F::epsilon().sqrt() {
                         if !child.children.is_empty() {
                             next_cover_set.push((d, child));
                         } else if d <= radius {
